@@ -26,7 +26,7 @@ type Job struct {
 	Prefix   []int   `json:"prefix,omitempty"`
 	Choices  []int   `json:"choices,omitempty"` // replay: the exact answers at every choice point
 	Trace    bool    `json:"trace,omitempty"`
-	BudgetMS int64   `json:"budget_ms,omitempty"`
+	Deadline int64   `json:"deadline_unix_ms,omitempty"` // stop exploring (answer complete:false) after this instant
 }
 
 type FoundViol struct {
@@ -57,6 +57,8 @@ type JobResult struct {
 	Stacks       string               `json:"stacks,omitempty"`
 	Sample       *Sample              `json:"sample,omitempty"`
 	WallMS       int64                `json:"wall_ms"`
+	Extra        map[string]int64     `json:"extra,omitempty"`
+	Bye          bool                 `json:"bye,omitempty"` // the worker process ends after this answer (it recycles itself)
 }
 
 // Sample is one written-out execution for the evidence file.
@@ -172,8 +174,12 @@ func RunJob(job *Job) *JobResult {
 		ex.MaxDepth = 2
 	}
 	deadline := time.Time{}
-	if job.BudgetMS > 0 {
-		deadline = t0.Add(time.Duration(job.BudgetMS) * time.Millisecond)
+	if job.Deadline > 0 {
+		deadline = time.UnixMilli(job.Deadline)
+		if time.Now().After(deadline) {
+			jr.Complete = false
+			return jr
+		}
 	}
 	first := true
 	for {
@@ -227,6 +233,9 @@ func RunJob(job *Job) *JobResult {
 			}
 		}
 		if !ex.Next() {
+			if job.Harness == "C10conc" && job.Mode == "explore" {
+				c10ReopenCheck(jr, job.C10)
+			}
 			break
 		}
 		if !deadline.IsZero() && jr.Executions%64 == 0 && time.Now().After(deadline) {
@@ -240,8 +249,10 @@ func RunJob(job *Job) *JobResult {
 // WorkerMain serves jobs: one JSON job per line on stdin, one JSON result per line on stdout.
 func WorkerMain() {
 	Quiet()
+	defer C10Cleanup()
 	in := bufio.NewReaderSize(os.Stdin, 1<<20)
 	out := bufio.NewWriter(os.Stdout)
+	var total int64
 	for {
 		line, err := in.ReadBytes('\n')
 		if len(strings.TrimSpace(string(line))) > 0 {
@@ -251,10 +262,19 @@ func WorkerMain() {
 				os.Exit(3)
 			}
 			jr := RunJob(&job)
+			total += jr.Executions
+			// process-global state of the code under test (the journal's pending-op table) grows when executions are
+			// abandoned with requests in flight: start over with a fresh process now and then
+			if total > 8000 {
+				jr.Bye = true
+			}
 			b, _ := json.Marshal(jr)
 			out.Write(b)
 			out.WriteByte('\n')
 			out.Flush()
+			if jr.Bye {
+				return
+			}
 		}
 		if err != nil {
 			return
